@@ -9,7 +9,9 @@ PROPS = "Props/C17_repaired.v" if EXT_REPAIRED else "Props/C17.v"
 THEOREMS_ASIS = ["C17_failed_import_is_noop_refuted_extnum", "C17_failed_import_is_noop_refuted_deps",
                  "C17_failed_import_is_noop_refuted_packages", "C17_failed_import_repeats_refuted",
                  "C17_failed_import_is_noop_partial", "C17_failed_import_repeats_partial",
-                 "C17_failed_package_collision_keeps_table"]
+                 "C17_failed_package_collision_keeps_table", "C17_fail_fast_handler_is_import",
+                 "C17_failed_import_is_noop_partial_any_handler", "C17_collect_refuted_extnum", "C17_collect_refuted_deps",
+                 "C17_collect_refuted_packages"]
 THEOREMS_REPAIRED = ["C17r_failed_import_is_noop", "C17r_failed_import_repeats",
                      "C17r_failed_import_is_noop_refuted_deps", "C17r_failed_import_is_noop_refuted_packages"]
 THEOREMS = THEOREMS_REPAIRED if EXT_REPAIRED else THEOREMS_ASIS
@@ -18,9 +20,9 @@ TRUSTED = ["hand-written Gallina model of linker/symbols.go (Model/Symbols.v): p
            "recursive import of the dependencies, check-then-commit, AddExtension per extension field; Lookup / LookupExtension",
            "correspondence harness (harness/cmd/symbols) + verif hook linker.VerifSymbolsDump (dump of the trie)"]
 ASSUMPTIONS = ["a source span is reduced to the name of the file that owns it; isEnumValue (error text only) is not modelled",
-               "handler = fresh reporter.NewHandler(nil) per call: the first reported error aborts the call",
-               "files are protoreflect descriptors made by protodesc.NewFile (the importFile path); the linker.Result path "
-               "(importResult) has the same check-then-commit structure and is exercised only through the compile runs of C16",
+               "a fresh handler per call, of either kind: fail-fast (the reporter returns the error) or collect-all (the reporter returns nil and Handler.Error() becomes ErrInvalidSource); the step-program (lock) model covers the fail-fast kind",
+               "importFile (descriptors made by protodesc.NewFile) and importResult (compiled linker.Result values) are one model: "
+               "checkResultLocked's extra test for duplicates inside one result cannot fire for a linked result",
                "walk.Descriptors order is taken from the implementation (input of the model, not modelled)"]
 
 KEY_EXT = "extnum-collision-after-commit"
@@ -142,19 +144,22 @@ def node_index(dump):
 
 
 def oracle(ctx, inp, out):
-    """The property on the implementation: around every failed import, every observable of the
-    table (all lookups of the universe; the outcome of Import(g) for every file g) is unchanged,
-    and importing the same file again fails in the same way.  Only import / lookup histories
-    (the quantifier of the property) are judged."""
+    """The property on the implementation: around every failed import (an error returned or reported
+    to the handler), every observable of the table (all lookups of the universe; the outcome of
+    Import(g) for every file g) is unchanged, and importing the same file again fails in the same
+    way.  Only import / lookup histories (the quantifier of the property) are judged; every handler
+    kind and both import paths are."""
     if any(o["op"] == "addext" for o in inp["ops"]):
         return
     fb = {f["id"]: f for f in inp["files"]}
     order = out["order"]
+    variant = {"handler": inp.get("handler", "strict"), "files_as": inp.get("kind", "desc")}
     prev = None
     for k, (op, st) in enumerate(zip(inp["ops"], out["steps"])):
-        if op["op"] == "import" and st["res"]["e"] != "ok":
+        if op["op"] == "import" and op_failed(st["res"]):
             fid = op["f"]
             res = st["res"]
+            errs = res["reported"] or [res]
             before_look = prev["look"] if prev else {"names": [-1] * len(inp["unames"]), "exts": [-1] * len(inp["uexts"])}
             before_dump = node_index(prev["dump"]) if prev else {}
             after_dump = node_index(st["dump"])
@@ -165,26 +170,28 @@ def oracle(ctx, inp, out):
                 bs = {s["name"] for s in b["symbols"]}
                 new_pkgs |= {s["name"] for s in n["symbols"] if s["pkg"] and s["name"] not in bs}
             # an extension error is raised while registering the extensions of a file that was
-            # committed just before: the culprit is the newly committed file that has that extension
+            # committed just before: the culprit is the newly committed file whose registration of that
+            # extension failed
             culprits = set()
-            if res["e"] == "ext":
-                owner_now = None
-                for n in st["dump"]:
-                    for x in n["exts"]:
-                        if x["msg"] == res["msg"] and x["tag"] == res["tag"]:
-                            owner_now = x["owner"]
-                for c in new_files:
-                    k = sum(1 for x in out["walks"][str(c)]["exts"] if x["extendee"] == res["msg"] and x["tag"] == res["tag"])
-                    if (k >= 1 and owner_now != c) or k >= 2:
-                        culprits.add(c)
-            elif res["e"] in ("extpkg", "nopkg"):
-                culprits = set(new_files)
-            replay = {"files": inp["files"], "ops": inp["ops"][: k + 1], "failed_step": k, "result": res}
+            for er in errs:
+                if er["e"] == "ext":
+                    owner_now = None
+                    for n in st["dump"]:
+                        for x in n["exts"]:
+                            if x["msg"] == er["msg"] and x["tag"] == er["tag"]:
+                                owner_now = x["owner"]
+                    for c in new_files:
+                        cnt = sum(1 for x in out["walks"][str(c)]["exts"] if x["extendee"] == er["msg"] and x["tag"] == er["tag"])
+                        if (cnt >= 1 and owner_now != c) or cnt >= 2:
+                            culprits.add(c)
+                elif er["e"] in ("extpkg", "nopkg"):
+                    culprits |= set(new_files)
+            replay = dict(variant, files=inp["files"], ops=inp["ops"][: k + 1], failed_step=k, result=res)
 
             def blame(owner):
                 if owner in culprits:
                     return KEY_EXT
-                if owner in new_files:
+                if owner in new_files and owner != fid:
                     return KEY_DEPS
                 return None
 
@@ -192,60 +199,74 @@ def oracle(ctx, inp, out):
                 return any(nm == q or nm.startswith(q + ".") for q in new_pkgs)
             for nm, b, a in zip(inp["unames"], before_look["names"], st["look"]["names"]):
                 if a != b:
-                    key = blame(a) or (KEY_PKGS if under_new_pkg(nm) else "failed-import-changed-lookup")
-                    ctx.violation(key, "Lookup(%s) answers %s before and %s after the failed Import(f%d)" % (nm, b, a, fid),
+                    key = blame(a) or (KEY_PKGS if under_new_pkg(nm) and a != fid else "failed-import-changed-lookup")
+                    ctx.violation(key, "Lookup(%s) answers %s before and %s after the failed Import(f%d) [%s handler, %s files]"
+                                  % (nm, b, a, fid, variant["handler"], variant["files_as"]),
                                   dict(replay, query={"lookup": nm}, before=b, after=a))
             for x, b, a in zip(inp["uexts"], before_look["exts"], st["look"]["exts"]):
                 if a != b:
-                    key = blame(a) or (KEY_PKGS if under_new_pkg(x["msg"]) else "failed-import-changed-lookup")
-                    ctx.violation(key, "LookupExtension(%s,%d) answers %s before and %s after the failed Import(f%d)" % (x["msg"], x["tag"], b, a, fid),
+                    key = blame(a) or (KEY_PKGS if under_new_pkg(x["msg"]) and a != fid else "failed-import-changed-lookup")
+                    ctx.violation(key, "LookupExtension(%s,%d) answers %s before and %s after the failed Import(f%d) [%s handler, %s files]"
+                                  % (x["msg"], x["tag"], b, a, fid, variant["handler"], variant["files_as"]),
                                   dict(replay, query={"lookupext": x}, before=b, after=a))
             for g, b, a in zip(order, st["probe_before"], st["probe_after"]):
-                if a == b:
+                if (a["e"], a["reported"]) == (b["e"], b["reported"]):
                     continue
                 key = None
                 cl = closure_ids(fb, g)
+                aerrs = [x for x in (a["reported"] or ([a] if a["e"] != "ok" else [])) if x not in b["reported"]]
                 if culprits & cl:
                     key = KEY_EXT                                     # the failed file now counts as imported
-                elif a["e"] == "sym" and a.get("aspkg") and a["name"] in new_pkgs:
+                elif any(x["e"] == "sym" and x.get("aspkg") and x["name"] in new_pkgs for x in aerrs):
                     key = KEY_PKGS
-                elif a["e"] in ("sym", "ext"):
-                    # who owns the entry that the later import now collides with?
-                    owner = None
-                    for n in st["dump"]:
-                        for s in n["symbols"]:
-                            if a["e"] == "sym" and s["name"] == a["name"]:
-                                owner = s["owner"]
-                        for x in n["exts"]:
-                            if a["e"] == "ext" and x["msg"] == a["msg"] and x["tag"] == a["tag"]:
-                                owner = x["owner"]
-                    key = blame(owner)
-                if key is None and (new_files - culprits) & cl:
-                    # a dependency that is now imported is skipped by the later import
-                    key = KEY_DEPS
+                else:
+                    for x in aerrs:
+                        if x["e"] not in ("sym", "ext"):
+                            continue
+                        owner = None      # who owns the entry that the later import now collides with?
+                        for n in st["dump"]:
+                            for sy in n["symbols"]:
+                                if x["e"] == "sym" and sy["name"] == x["name"]:
+                                    owner = sy["owner"]
+                            for e2 in n["exts"]:
+                                if x["e"] == "ext" and e2["msg"] == x["msg"] and e2["tag"] == x["tag"]:
+                                    owner = e2["owner"]
+                        key = key or blame(owner)
+                if key is None and g != fid and (new_files - culprits - {fid}) & cl:
+                    key = KEY_DEPS                                    # a dependency that is now imported is skipped
                 what = ("after the failed Import(f%d) a later Import(f%d) gives %s, before it gave %s" % (fid, g, a, b))
                 if g == fid:
                     what = "importing f%d again gives %s instead of the same failure %s" % (fid, a, b)
-                ctx.violation(key or "failed-import-changed-later-import", what,
+                ctx.violation(key or "failed-import-changed-later-import",
+                              what + " [%s handler, %s files]" % (variant["handler"], variant["files_as"]),
                               dict(replay, query={"import": g}, before=b, after=a))
         prev = st
 
 
+VARIANTS = [("strict", "desc"), ("collect", "desc"), ("strict", "result"), ("collect", "result")]
+
+
 def run(ctx):
     rng = ctx.rng
-    cases = [fill(c) for c in CORPUS]
-    for _ in range(ctx.budget(240, 6000)):
-        cases.append(gen_case(rng, addext=rng.chance(1, 4)))
+    base = [fill(c) for c in CORPUS]
+    cases = [(with_variant(c[0], h, k), c[1]) for c in base for (h, k) in VARIANTS]
+    for i in range(ctx.budget(240, 6000)):
+        c = gen_case(rng, addext=rng.chance(1, 4))
+        h, k = VARIANTS[i % 4]
+        cases.append((with_variant(c[0], h, k), c[1]))
     ins = [c[0] for c in cases]
     outs = ctx.impl("symbols", ins)
     ctx.rule = ("histories of 2..7 operations (Import incl. re-imports, AddExtension, Lookup, LookupExtension) over universes of 1..5 "
-                "generated descriptor files (packages from a pool of nested prefixes, messages / nested messages / enum values / "
-                "extensions drawn from small pools so that name, package-vs-name and extension-number collisions are frequent); "
-                "after every step the whole trie (hook dump) and every lookup of the universe is compared with the model in coqc; "
-                "distinct = distinct (files, ops); non-trivial = at least one import failed")
+                "generated files (packages from a pool of nested prefixes, messages / nested messages / enum values / extensions drawn "
+                "from small pools so that name, package-vs-name and extension-number collisions are frequent), each under one of four "
+                "variants: fail-fast or collect-all handler x files as protodesc descriptors (importFile path) or as compiled "
+                "linker.Result values (importResult path); the hand-picked corpus runs under all four; after every step what was "
+                "reported and returned, the whole trie (hook dump) and every lookup of the universe are compared with the model in "
+                "coqc; distinct = distinct (files, ops, variant); non-trivial = at least one import failed")
     terms, meta = [], []
     nbuilderr = 0
     for inp, out in zip(ins, outs):
+        vname = "%s/%s" % (inp["handler"], inp["kind"])
         if "builderr" in out:
             nbuilderr += 1
             continue
@@ -253,24 +274,29 @@ def run(ctx):
             ctx.corr_break("symbols:seq", inp, out)
             ctx.violation("panic", "implementation panicked or crashed", {"input": inp, "observed": out})
             continue
-        failed = [st["res"]["e"] for op, st in zip(inp["ops"], out["steps"]) if op["op"] == "import" and st["res"]["e"] != "ok"]
-        klass = "no-failure" if not failed else "+".join(sorted(set(failed)))
-        ctx.count((json.dumps(inp["files"], sort_keys=True), json.dumps(inp["ops"], sort_keys=True)), bool(failed), klass)
-        t = coq_seq_case(inp, out)
+        failed = [(st["res"]["reported"] or [st["res"]])[0]["e"] for op, st in zip(inp["ops"], out["steps"])
+                  if op["op"] == "import" and op_failed(st["res"])]
+        klass = vname + ":" + ("no-failure" if not failed else "+".join(sorted(set(failed))))
+        ctx.count((json.dumps(inp["files"], sort_keys=True), json.dumps(inp["ops"], sort_keys=True), vname), bool(failed), klass)
+        if (inp["handler"], inp["kind"]) == ("strict", "desc"):
+            t = coq_seq_case(inp, out)          # sequential model, step programs run alone
+        else:
+            t = coq_seqH_case(inp, out)         # model with the handler kind explicit
         if t is None:
             ctx.corr_break("symbols:seq", inp, {"unmodelled error": [st["res"] for st in out["steps"]]})
             continue
         terms.append(t)
         meta.append((inp, out))
         oracle(ctx, inp, out)
-    ctx.extra["generator_rejected_by_protodesc"] = nbuilderr
-    for c in cases[:3]:
-        ctx.sample({"files": c[0]["files"], "ops": c[0]["ops"]})
-    ctx.sample({"files": ins[-1]["files"], "ops": ins[-1]["ops"]})
-    mism, err = coq_eval_mismatches("cases_C17", HEADER, terms, CHK, shard_size=ctx.budget(32, 200))
+    ctx.extra["cases_rejected_when_building_the_files"] = nbuilderr
+    for c in cases[:2] + cases[5:6]:
+        ctx.sample({"handler": c[0]["handler"], "files_as": c[0]["kind"], "files": c[0]["files"], "ops": c[0]["ops"]})
+    ctx.sample({"handler": ins[-1]["handler"], "files_as": ins[-1]["kind"], "files": ins[-1]["files"], "ops": ins[-1]["ops"]})
+    mism, err = coq_eval_mismatches("cases_C17", HEADER, terms, CHK, shard_size=ctx.budget(24, 200))
     if err:
         raise RuntimeError(err)
     for k in mism:
         inp, out = meta[k]
-        ctx.corr_break("symbols:seq", {"files": inp["files"], "ops": inp["ops"]},
+        ctx.corr_break("symbols:seq:%s/%s" % (inp["handler"], inp["kind"]), {"handler": inp["handler"], "files_as": inp["kind"],
+                                                                              "files": inp["files"], "ops": inp["ops"]},
                        {"observed": [st["res"] for st in out["steps"]], "dumps": [st["dump"] for st in out["steps"]]})
